@@ -26,7 +26,7 @@ def describe(tier):
     return {
         "rule": "G: all (n,k) with n in 0..40, k in 1..8, both directions, IPv4/IPv6; S: all sequences of (direction, n, k) records "
                 f"to depth 2 over n in {NS} x k in {KS}" + ("" if tier == "quick" else f" and to depth 3 over n in {NS3} x k in {KS3}") + "; P: product of option sets (-m absent/bare/"
-                "pairs, -a, -c, -p, -g) x 12 capture kinds (incl. reordered and retransmitted TLS segments). non-trivial: an output holding >= 1 TCP conversation or UDP datagram that "
+                "pairs, -a, -c, -p, -g) x 13 capture kinds (incl. reordered and retransmitted TLS segments, client ports that are configured server ports). non-trivial: an output holding >= 1 TCP conversation or UDP datagram that "
                 "passed every structural test; distinct = distinct scenario",
         "exhaustive": True,
         "bounds": {"grid": "n 0..40 x k 1..8", "sequence_depth": "2 (full alphabet)" if tier == "quick" else "2 (full alphabet), 3 (reduced alphabet)"},
@@ -129,7 +129,7 @@ def check_builder(specs, v6):
 
 
 P_CAPTURES = ["tls_ok", "quic_ok", "tls_nokeys", "quic_nokeys", "quic_unknown_version", "http_on_443", "junk_udp", "empty", "mixed",
-              "tls_reordered", "tls_retransmitted", "tls_many_segments_two_flows"]
+              "tls_reordered", "tls_retransmitted", "tls_many_segments_two_flows", "client_port_is_server_port"]
 P_OPTS = {"m": [None, [], ["443:8081"], ["443:8081", "8443:9000"]], "a": [False, True], "c": [False, True], "p": [None, ["8443"]],
           "g": [False, True]}
 
@@ -166,6 +166,15 @@ def program_capture(kind, seed):
         ends[8] = f.ends
         keylog.extend(f.keylog())
         lists.append(f.pkts)
+    if kind == "client_port_is_server_port":
+        # connections (TLS 1.2 with closing alerts, TLS 1.3, QUIC) whose ephemeral CLIENT port 44330 is itself a default server port
+        for idx, scn in ((0, {"close_alerts": ("c", "s")}), (9, {"version": tls.TLS13, "suite": 0x1301, "close_alerts": ("s", "c")})):
+            pk_ = add_tls(idx, **scn)
+            ends[idx].client.port = 44330
+            lists.append(pk_)
+        pk_ = add_quic(1)
+        ends[1].client.port = 44330
+        lists.append(pk_)
     if kind in ("quic_ok", "mixed"):
         lists.append(add_quic(1))
     if kind in ("tls_nokeys", "mixed"):
